@@ -340,9 +340,13 @@ func TestVerifC27Plain(t *testing.T) {
 	r := verifkit.Start(t, "C27", "plain")
 	defer r.Finish()
 	r.SetRule("per codec: PRNG valid values (reflection-filled structs with edge-biased integers, hostile strings, nil/empty/short slices; replication requests are sealed with the real SealProposalManifest so that Valid() holds) → round-trip equality; every strict prefix of each encoding; random mutations; header-preserving random bodies; a huge declared length written at every offset with per-call TotalAlloc metering. Non-trivial = a value the encoder accepted; distinct = (codec, phase, abstract value shape).")
-	r.Assume("a process-wide TotalAlloc delta around a batch of decode calls (serial phase, no other harness goroutines) over-approximates the allocation of each call")
-	b := c27.Budget{Values: r.N(150, 4000), MutationsPer: r.N(10, 20), HostileValues: r.N(4, 40), RandomInputs: r.N(3000, 80000), MaxTruncs: r.N(140, 1600), HostileOffs: r.N(400, 1600), Workers: 6}
+	r.Assume("the process-wide heap allocation counter (runtime/metrics /gc/heap/allocs:bytes) read around one decode call in the serial phase (no other harness goroutine allocating) over-approximates the allocation of that call")
+	b := c27.Budget{Values: r.N(150, 1000), MutationsPer: r.N(10, 20), HostileValues: r.N(4, 16), RandomInputs: r.N(3000, 80000), MaxTruncs: r.N(140, 1600), HostileOffs: r.N(400, 1600), Workers: 6}
 	c27.Drive(r, c27PlainCodecs(), b)
+	r.Note("uncovered", []string{
+		"propose.ForwardRequest layouts v1 and v2 have no encoder: they are reached only as decode inputs (version byte rewritten to 1/2, mutations, random bodies)",
+		"exported Encode*/Decode* symbols of the anchored packages were enumerated by hand when this harness was written; a codec added later is not picked up automatically",
+	})
 	r.Note("prefix_policy", "propose.Payload and clusternet.Header carry an opaque tail without a length: prefixes that still contain the fixed header are complete frames by construction and are counted (truncation.legit_prefix_frame), not asserted")
 	r.Note("controller_command_domain", "JSON codec: strings restricted to valid UTF-8 (encoding/json replaces invalid bytes by U+FFFD, which is outside the field domain of addresses/ids)")
 }
